@@ -68,6 +68,9 @@ pub open spec fn same_unless_planned(new: Map<PathV, FileS>, old: Map<PathV, Fil
 //@replace? /write!\(list, "\{\}\/\{\}\\0", remote_root, rel\.display\(\)\)/ => push_list_entry(&mut list, remote_root, rel, '\\0')
 //@replace? /writeln!\(list, "\{\}\/\{\}", remote_root, rel\.display\(\)\)/ => push_list_entry(&mut list, remote_root, rel, '\\n')
 //@replace? /(?s)if let Ok\(mut child\) = tokio::process::Command::new\("ssh"\)\s*\.arg\(host\)\s*\.arg\("xargs -0 rm -f --"\).*?let _ = child\.wait_with_output\(\)\.await;\s*\}/ => let _ = ssh_xargs(host, '\\0', true, &list, Tracked(rl));
+//@replace? /(?s)let cmd = format!\(\s*"t=\$\(mktemp\) && cat > [^;]*? && xargs -0 rm -f -- < [^;]*?; rm -f [^;]*?",\s*list\.len\(\)\s*\);/ => let xd: char = '\\0';      // the command line: count-guarded (whole list or nothing), entries cut at NUL
+//@replace? /(?s)let cmd = format!\(\s*"t=\$\(mktemp\) && cat > [^;]*? && xargs -d '\\\\n' rm -f -- < [^;]*?; rm -f [^;]*?",\s*list\.len\(\)\s*\);/ => let xd: char = '\\n';
+//@replace? /(?s)if let Ok\(mut child\) = tokio::process::Command::new\("ssh"\)\s*\.arg\(host\)\s*\.arg\(cmd\).*?let _ = child\.wait_with_output\(\)\.await;\s*\}/ => let _ = ssh_xargs(host, xd, true, &list, Tracked(rl));
 //@replace? /(?s)if let Ok\(mut child\) = tokio::process::Command::new\("ssh"\)\s*\.arg\(host\)\s*\.arg\("xargs -d '\\\\n' rm -f --"\).*?let _ = child\.wait_with_output\(\)\.await;\s*\}/ => let _ = ssh_xargs(host, '\\n', true, &list, Tracked(rl));
 //@replace? /for rel in dels(?= \{)/ => for rel in it: dels #all
 //@replace? /use std::fmt::Write as _;/ => 
